@@ -67,4 +67,18 @@ int vx_native_read_vector3(const char* text, double* m)
    }
    return 0;
 }
+// native-only: keys handed to the processor by read_block(name, processor, scale), in order
+int vx_native_select(const char* text, const char* name, double scale, int* keys, int max)
+{
+   int n = 0;
+   try {
+      std::istringstream is(text);
+      gm2calc::GM2_slha_io io;
+      io.read_from_stream(is);
+      io.read_block(name, [&](int k, double) { if (n < max) keys[n++] = k; }, scale);
+   } catch (...) {
+      return -1;
+   }
+   return n;
+}
 }
